@@ -169,6 +169,17 @@ def run(c, case):
             v = a._getitem((slice(None), 1))
             v._setitem((1,), -9)
         return {'a': arr_list(a)}
+    if f == 'np_slice_store':
+        a = np.asarray([[10, 11], [20, 21], [30, 31], [40, 41]])
+        v = case['val']
+        a._setitem((slice(case['lo'], case['hi']),), np.asarray(v) if isinstance(v, list) else v)
+        return {'a': arr_list(a)}
+    if f == 'np_mask_slice':
+        import numpy
+        a = np.asarray(numpy.arange(12).reshape(3, 4).tolist())
+        m = np.asarray(case['mask'], dtype=np.BOOL)
+        idx = (m, slice(None, case['stop'])) if case['axis'] == 0 else (slice(None, case['stop']), m)
+        return {'r': arr_list(a._getitem(idx))}
     if f == 'np_diff':
         kw = {k: case[k] for k in ('prepend', 'append') if case[k] is not None}
         return {'d': arr_list(np.diff(np.asarray(case['vals']), **kw))}
